@@ -786,6 +786,7 @@ def run(rep, tier):
     rep.floor("value copies in ini_val_set", c17_audit.null_value_rule(rep, u), 1)
     c17_audit.gen_empty_rule(rep, u)
     rep.floor("pair lookups", c17_audit.all_sections_rule(rep, u), 3)
+    rep.floor("overwrites of the hit inside the section walk", c17_audit.keep_found_rule(rep, u), 1)
     rep.floor("name finders", c17_audit.empty_name_rule(rep, u), 4)
     rep.floor("refusal classes of ini_val_set", c17_audit.representable_rule(rep, u), 4)
     rep.floor("counted-string helpers in mem_utils.h", c17_audit.byte_string_rule(rep, u), 8)
